@@ -182,6 +182,62 @@ def upd_identity(x, f0, f0_old, grad, X, G):
     return f0, f0_old, grad, G
 
 
+def make_switching(kind: str, p: "Problem", seed: int, switch_at: int):
+    """objective redefined on the fly, consistently: the user's fun/jac and the update function
+    share one state. Before the switch the objective is F, after it F' = scale*F ("rescale") or
+    F + (w/2)|x|^2 ("reweight"). The update function is invoked once before the loop (call 0)
+    and once per accepted step; at call number `switch_at` it switches the objective and
+    rewrites f0, f0_old, grad and the stored gradients for the new objective.
+    Returns fun, jac, update, newfun, newjac, state."""
+    r = random.Random(seed)
+    w_new = r.choice([0.5, 2.0, 10.0])
+    scale = r.choice([0.25, 3.0])
+    st = {"calls": 0, "on": False}
+    F, Gr = p.fun, p.grad
+    # "indef": the new objective is a quadratic with negative curvature in one direction, so
+    # that the rewritten gradients break the curvature condition for a subset of the pairs
+    rng = np.random.default_rng(seed + 77)
+    Q, _ = np.linalg.qr(rng.standard_normal((p.n, p.n)))
+    ev = rng.uniform(0.5, 3.0, p.n)
+    ev[int(rng.integers(0, p.n))] *= -1.0
+    Aind = (Q * ev) @ Q.T
+    Aind = 0.5 * (Aind + Aind.T)
+    bind = rng.standard_normal(p.n)
+
+    def newfun(x):
+        if kind == "indef":
+            return float(0.5 * x @ (Aind @ x) - bind @ x)
+        return F(x) * scale if kind == "rescale" else F(x) + 0.5 * w_new * float(np.dot(x, x))
+
+    def newjac(x):
+        if kind == "indef":
+            return Aind @ x - bind
+        g = np.atleast_1d(Gr(x))
+        return g * scale if kind == "rescale" else g + w_new * x
+
+    def fun(x):
+        return newfun(x) if st["on"] else F(x)
+
+    def jac(x):
+        return newjac(x) if st["on"] else Gr(x)
+
+    def upd(x, f0, f0_old, grad, X, G):
+        from collections import deque
+        k = st["calls"]
+        st["calls"] += 1
+        if k != switch_at:
+            return f0, f0_old, grad, G
+        st["on"] = True
+        if kind == "rescale":
+            return f0 * scale, f0_old * scale, grad * scale, deque([g * scale for g in G])
+        xprev = X[-1] if len(X) else x
+        if kind == "indef":
+            return newfun(x), newfun(xprev), newjac(x), deque([newjac(xx) for xx in X])
+        return (f0 + 0.5 * w_new * float(np.dot(x, x)), f0_old + 0.5 * w_new * float(np.dot(xprev, xprev)),
+                grad + w_new * x, deque([g + w_new * xx for g, xx in zip(G, X)]))
+    return fun, jac, upd, newfun, newjac, st
+
+
 def make_update(kind: str, seed: int, switch_at: int):
     """update functions for C13: the objective is  f + w * reg  with reg = 0.5|x|^2; the
     weight changes once, at call number `switch_at` (0 = the initial call)."""
@@ -246,7 +302,14 @@ def scenario(seed: int, features: Optional[Dict[str, Any]] = None, families=None
         from lbfgsb.utils import get_gradient_projection_unit_scaling
         kw["gradient_scaler"] = get_gradient_projection_unit_scaling
     up = feat.get("update", "none")
-    if up != "none":
+    if up in ("rescale", "reweight", "indef") and feat.get("consistent"):
+        sw = feat.get("switch_at", r.randint(0, 5))
+        fun2, jac2, upd2, newfun, newjac, swst = make_switching(up, p, seed, sw)
+        kw["fun"], kw["jac"], kw["update_fun_def"] = fun2, jac2, upd2
+        p.switch = {"newfun": newfun, "newjac": newjac, "state": swst, "switch_at": sw}
+    elif up == "identity":
+        kw["update_fun_def"] = upd_identity
+    elif up != "none":
         kw["update_fun_def"] = make_update(up, seed, feat.get("switch_at", r.randint(0, 5)))
     desc = {"seed": seed, "problem": p.desc, "cfg": cfg,
             "features": {"jac": mode, "callback": cb, "ftarget": ft, "scaler": sc, "update": up,
